@@ -44,7 +44,7 @@ fn check_case(ctx: &Ctx, stream: &str, idx: u64, scfg: &SCfg, inserts: &[Entry],
             if live > m.max_live_at_create {
                 m.max_live_at_create = live;
             }
-            if live > max_chunks + 2 && m.first_live_violation.is_none() {
+            if live > max_chunks.saturating_add(2) && m.first_live_violation.is_none() {
                 m.first_live_violation = Some(format!("{} chunks exist at create #{} (effective max_nb_chunks = {})", live, m.creates, max_chunks));
             }
         }));
@@ -180,7 +180,7 @@ pub fn run(ctx: &Ctx) -> i32 {
     ctx.par("scaled", n, true, |idx, rng| {
         let mut scfg = gen_scfg(rng);
         scfg.parallel = false;
-        scfg.max_nb_chunks = *rng.pick(&[0usize, 1, 1, 2, 3, 5, 8, 30]);
+        scfg.max_nb_chunks = if rng.chance(1, 30) { usize::MAX } else { *rng.pick(&[0usize, 1, 1, 2, 3, 5, 8, 30]) };
         // budgets on and off multiples of the 16-byte bound size
         scfg.budget = *rng.pick(&[1000usize, 1024, 2048, 4096, 5000, 10_001, 14_285, 16_384, 65_536]);
         // initial capacity never above the budget (as with the real constants)
